@@ -299,9 +299,9 @@ def main(prop, tier):
     try:
         ex, fns, loops, text, linemap, info, unit, res0 = verify_with_inference(REPO, os.path.join(sd, 'unit'))
     except (AnchorLost, weave.SpecError) as e:
-        return undecided(prop, tier, t0, 'extraction anchor lost: %s' % e)
+        return undecided_with_probes(prop, tier, t0, 'extraction anchor lost: %s' % e)
     except Undecided as e:
-        return undecided(prop, tier, t0, str(e))
+        return undecided_with_probes(prop, tier, t0, str(e))
     assumptions_found = scan_assumptions(text)
     allowed = [norm(l) for l in open(os.path.join(VERIF, 'contracts/ALLOWED_ASSUMPTIONS')).read().split('\n')
                if l.strip() and not l.startswith('# ')]
@@ -510,6 +510,35 @@ def matches_known(kf, prop, oblig, w, known_lines):
             known_lines.append(k.get('what', oblig))
             return True
     return False
+
+
+def undecided_with_probes(prop, tier, t0, msg):
+    """The deductive part could not be built for this tree (lost anchor, construct outside the extractor / Verus).
+    That is exit 2 - unless the bounded native probes on the real crate find a concrete failing input: a panic, hang,
+    abort or lossy tree reproduced on the real code is a violation whatever the state of the proof."""
+    w = None
+    try:
+        if prop == 'C02':
+            w, _ = deep_probe(tier)
+            if w and w['kind'] not in ('panic', 'hang', 'abort'):
+                w = None
+            if not w:
+                w = witness.search(3, 60, seed=seed(), kinds=('panic', 'hang', 'abort'))
+        else:
+            w = witness.search(3, 90, seed=seed(), kinds=('lossy', 'error-range'))
+    except Undecided:
+        w = None
+    if not w:
+        return undecided(prop, tier, t0, msg)
+    oblig = 'parser :: bounded-check (deductive part undecided) :: %s' % (w.get('input_recipe') or w['kind'])
+    path = write_replay(prop, oblig, 'crates/syntax/src/parser.rs', 'native driver (bounded stand-in, real crate); deductive part UNDECIDED: ' + msg[:600],
+                        w['observed'], w, './check %s --replay <this file>' % prop)
+    write_evidence(prop, tier, 'proof',
+                   {'obligations': 0, 'discharged': 0, 'checker_cmd': 'verus (not reached)', 'trusted_base': [],
+                    'explanation': 'deductive part UNDECIDED (%s); the bounded native probe found a failing input on the real crate' % msg[:800],
+                    'evaluations': 1, 'distinct_nontrivial': 1, 'samples': [w.get('input_recipe') or w['input'][:200]]},
+                   [], time.time() - t0, 1)
+    finish(prop, [(path, True)], [])
 
 
 def undecided(prop, tier, t0, msg):
